@@ -32,7 +32,9 @@ TOLERANCES = {"energy": 1e-12,                 # [1.7e-16]
               "series-g": 1e-10,               # [4.3e-14]
               "rayleigh": "3 x^2 + 1e-9",      # [0.90 x^2]
               "ms-vs-mie": 1e-4,               # [1.9e-6]
-              "ms-optical-theorem": 1e-6}      # [0]
+              "ms-optical-theorem": 1e-6,      # [0]
+              # quadrature error of the 4 pi integral for chains along z
+              "ms-nonabsorbing-cabs": 3e-3}    # [6.2e-5] of Cext
 TOL = TOLERANCES
 TIMEOUT = 900
 
@@ -99,6 +101,9 @@ def cases(tier, seed):
     for i, _ in enumerate(MS_TWO[tier]):
         out.append({"id": "ms2#%d" % i, "kind": "ms2", "i": i,
                     "_timeout": 900})
+    for which in ("equal", "unequal"):
+        out.append({"id": "ms3z:" + which, "kind": "ms3z", "which": which,
+                    "_timeout": 900})
     # histories over near-identical spheres (a result remembered under a key
     # that is too coarse -- rounded size parameter or index -- shows up as a
     # dependence on the calls issued before)
@@ -119,13 +124,32 @@ HOPS = {  # name -> (relative index, size parameter)
     "A": (1.5, 3.0), "A-x+1e-5": (1.5, 3.00001), "A-m+1e-5": (1.50001, 3.0),
     "A-absorbing": (1.5 + 2e-5j, 3.0), "tiny": (1.5, 1.0e-3),
     "tiny+2%": (1.5, 1.02e-3), "B": (1.2, 30.0), "B-x+1e-4": (1.2, 30.0001),
+    # Multisphere cross sections (the Fortran solver keeps static work
+    # arrays): a one-sphere cluster and a three-sphere chain along z
+    "ms1": ("chain", 1), "ms3z": ("chain", 3),
 }
+
+
+def _chain(N, unequal=False):
+    from holopy.scattering import Sphere, Spheres
+    if unequal:
+        return Spheres([Sphere(n=1.59, r=0.3, center=(0, 0, -0.9)),
+                        Sphere(n=1.45, r=0.4, center=(0, 0, 0)),
+                        Sphere(n=1.59, r=0.3, center=(0, 0, 0.9))])
+    return Spheres([Sphere(n=1.59, r=0.3,
+                           center=(0, 0, 0.8 * (i - (N - 1) / 2)))
+                    for i in range(N)])
 
 
 def _hop(name):
     from holopy.scattering import Sphere, Mie, calc_cross_sections
     m, x = HOPS[name]
     nmed, wl = 1.33, 0.66
+    if m == "chain":
+        from holopy.scattering import Multisphere
+        cs = calc_cross_sections(_chain(x), nmed, wl, (1, 0),
+                                 theory=Multisphere()).values
+        return digest(np.asarray(cs, dtype=float))
     k = 2 * math.pi * nmed / wl
     n = m * nmed
     sph = Sphere(n=n.real if complex(n).imag == 0 else n, r=x / k,
@@ -419,8 +443,45 @@ def _run_ms2(case, ck):
     return digest(np.asarray(got, dtype=float))
 
 
+def _run_ms3z(case, ck):
+    """a chain of three non-absorbing spheres along the optical axis, the
+    middle one exactly at the cluster's centroid"""
+    from holopy.scattering import Multisphere, calc_cross_sections
+    nmed, wl = 1.33, 0.66
+    k = 2 * math.pi * nmed / wl
+    clus = _chain(3, case["which"] == "unequal")
+    res = []
+    for pol in POLS:
+        got = calc_cross_sections(clus, nmed, wl, pol,
+                                  theory=Multisphere()).values
+        ck.trans += 1
+        res.append(got)
+        e = abs(got[2] - (got[0] + got[1])) / abs(got[2])
+        ck.true("energy", e <= 1e-12, "chain: Cext != Csca + Cabs")
+        ck.true("csca-positive", got[0] > 0, "chain Csca = %r" % got[0])
+        ck.true("g-range", -1 <= got[3] <= 1, "chain g = %r" % got[3])
+        e = abs(got[1]) / abs(got[2])
+        ck.metric("ms-nonabsorbing-cabs", e)
+        ck.true("energy-nonabsorbing", e <= TOL["ms-nonabsorbing-cabs"],
+                "chain of non-absorbing spheres: Cabs = %r, Cext = %r "
+                "(pol %r)" % (got[1], got[2], pol))
+    for got, pol in zip(res[1:], POLS[1:]):
+        e = float(np.max(np.abs(got - res[0]) / np.abs(res[0])))
+        ck.metric("ms-axial-pol-independence", e)
+        ck.true("axial-pol-independence", e <= 1e-8, "a chain along the "
+                "optical axis has cross sections %r for polarization %r "
+                "but %r for (1, 0)" % (got.tolist(), pol, res[0].tolist()))
+    S0 = _forward(Multisphere(), clus, nmed, wl)
+    ot = 4 * math.pi / k ** 2 * S0[0, 0].real
+    e = abs(ot - res[0][2]) / abs(res[0][2])
+    ck.metric("ms-optical-theorem", e)
+    ck.true("ms-optical-theorem", e <= 1e-6, "chain Cext %r vs optical "
+            "theorem %r" % (res[0][2], ot))
+    return digest(np.asarray(res, dtype=float))
+
+
 def run_case(case):
     ck = Checker()
     fp = {"sphere": _run_sphere, "layered": _run_layered, "ms1": _run_ms1,
-          "ms2": _run_ms2, "history": _run_history}[case["kind"]](case, ck)
+          "ms2": _run_ms2, "ms3z": _run_ms3z, "history": _run_history}[case["kind"]](case, ck)
     return ck.result(fp=fp)
